@@ -79,6 +79,12 @@ int g_total_steps;
 bool g_nt_preempt;              // a preemption inside lock / reset happened
 int g_preemptions, g_parks;
 bool g_has_clr;
+// "stall" schedules (header bit 6, random schedules only): no fibre is ever parked, and the first time a thread finds the
+// lock flag taken, its holder is not scheduled for the next few thousand decisions -- a preempted holder, which a spin
+// lock must simply outwait (a lock that gives up after a bounded number of retries comes back empty although an owner exists)
+bool g_stall_mode;
+int g_flag_holder = -1, g_stall_victim = -1, g_stall_left = 0;
+bool g_stall_used;
 
 uint64_t hmix(uint64_t h, uint64_t v) { h ^= v + 0x9E3779B97F4A7C15ull + (h << 6) + (h >> 2); return h * 0xff51afd7ed558ccdull; }
 
@@ -141,7 +147,7 @@ void vfs_pre(int kind, const volatile void *p, size_t sz)
         // other atomic step in between and the flag still set, is a pure retry -- the fibre is parked until the
         // flag changes (otherwise the unfair schedule that always picks the spinner would look like a livelock)
         Fibre &f = F[cur];
-        if (kind == 10 && f.park_addr == (volatile int *)p && *f.park_addr) { f.parked = true; g_parks++; }
+        if (!g_stall_mode && kind == 10 && f.park_addr == (volatile int *)p && *f.park_addr) { f.parked = true; g_parks++; }
         else f.park_addr = nullptr;
     }
     yield_point(KN[kind % 12], 0x10 + (uint64_t)kind);
@@ -155,10 +161,17 @@ void vfs_post(const volatile void *p, size_t sz, unsigned long long observed, un
 }
 void vfs_flag_lost(const volatile void *f)
 {
-    if (cur >= 0) F[cur].park_addr = (volatile int *)f;       // lost the race: the coming sched_yield parks this fibre
+    if (cur < 0) return;
+    if (g_stall_mode) {
+        if (!g_stall_used && g_flag_holder >= 0 && g_flag_holder != cur) { g_stall_used = true; g_stall_victim = g_flag_holder; g_stall_left = 3000; }
+        return;                                                // never parked: the loser really spins
+    }
+    F[cur].park_addr = (volatile int *)f;       // lost the race: the coming sched_yield parks this fibre
 }
+void vfs_flag_won(const volatile void *) { if (cur >= 0) g_flag_holder = cur; }
 void vfs_flag_cleared(const volatile void *f)
 {
+    g_flag_holder = -1;
     // wake fibres parked on this flag
     for (int t = 0; t < T; t++) if (F[t].parked && (const volatile void *)F[t].park_addr == f) { F[t].parked = false; F[t].park_addr = nullptr; }
 }
@@ -398,9 +411,16 @@ bool run_scheduler()
         bool unfinished = false;
         for (int t = 0; t < T; t++) if (!F[t].done) { unfinished = true; if (!F[t].parked) runnable.push_back(t); }
         if (!unfinished) return true;
+        if (g_stall_left > 0) {
+            g_stall_left--;
+            auto it = std::find(runnable.begin(), runnable.end(), g_stall_victim);
+            if (it != runnable.end() && runnable.size() > 1) runnable.erase(it);
+            else g_stall_left = 0;          // nobody else can run: the stall is over
+            if (g_stall_left == 0) g_stall_mode = false;     // from here on the ordinary rules (parking) apply again
+        }
         if (runnable.empty())
             verif_fail("C06.liveness.deadlock", "every unfinished thread waits for the lock flag: no thread can make progress");
-        if (++g_total_steps > 20000)
+        if (++g_total_steps > (g_stall_mode ? 60000 : 20000))
             verif_fail("C06.liveness.steps", "scenario did not terminate within 20000 scheduling steps");
         // order: current fibre first if runnable
         std::vector<int> order;
@@ -436,7 +456,7 @@ char *g_stacks[MAXT];
 void setup_scenario(Cursor &c)
 {
     uint8_t hb = c.u8();
-    T = 2 + (hb & 0x7f) % 3;
+    T = 2 + (hb & 0x3f) % 3;
     g_book = g_managed = nullptr;
     g_clr_count = g_managed_frees = g_book_frees = 0;
     g_destroy_started = false;
@@ -448,6 +468,10 @@ void setup_scenario(Cursor &c)
     cur = -1;
     uint8_t cfg[MAXT], len[MAXT], ops[MAXT][4];
     for (int t = 0; t < MAXT; t++) { cfg[t] = c.u8(); len[t] = c.u8(); for (int i = 0; i < 4; i++) ops[t][i] = c.u8(); }
+    g_stall_mode = (hb & 0x40) && !g_visited;      // (never under the exhaustive search: its pruning assumes parking)
+    g_flag_holder = g_stall_victim = -1;
+    g_stall_left = 0;
+    g_stall_used = false;
     g_has_clr = !(hb & 0x80);      // memory without a clear callback (what the library's own arrays use) is a scenario too
     // the allocation, made by the main thread before the others start
     cstl_shared_ptr_t root;
@@ -519,6 +543,7 @@ bool run_one(const uint8_t *data, size_t len, std::unordered_set<uint64_t> *visi
 {
     Cursor c(data, len);
     g_alloc_hook = alloc_hook;      // counts frees during setup too; yields only inside fibres
+    g_visited = visited;
     setup_scenario(c);
     if (g_out_of_scope) return true;
     g_sched = data + c.i;
@@ -561,7 +586,7 @@ void vf_run(const uint8_t *data, size_t len)
 void vf_gen(Rng &r, std::vector<uint8_t> &out)
 {
     // random scenario + PCT-like schedule (mostly "continue", a few preemptions)
-    out.push_back((uint8_t)(r.below(120) | (r.chance(1, 4) ? 0x80 : 0)));      // threads; 1 in 4 without a clear callback
+    out.push_back((uint8_t)(r.below(63) | (r.chance(1, 4) ? 0x80 : 0) | (r.chance(1, 25) ? 0x40 : 0)));      // threads; 1 in 4 without a clear callback; 1 in 25 with a stalled lock holder
     for (int t = 0; t < MAXT; t++) {
         out.push_back(r.byte());
         out.push_back(r.byte());
